@@ -168,8 +168,9 @@ theorem funexpected_safe' {α : Type} {st : FState} {tok : Item} {Q : α → FSt
 
 omit hz in
 theorem funexpected_textStart_safe {α : Type} {st : FState} {tok : Item} {Q : α → FState → Prop}
-    (ht : S tok) (hv : EL.lex → valid tok) : FSafe AP EL S (FileParser.unexpected (atTextStart tok) : FP α) st Q :=
-  FSafe.lift (unexpected_textStart_safe ht hv)
+    (ht : S tok) (hv : EL.lex → valid tok) (htx : tok.typ = .tText) :
+    FSafe AP EL S (FileParser.unexpected (atTextStart tok) : FP α) st Q :=
+  FSafe.lift (unexpected_textStart_safe ht hv htx)
 
 omit hz in
 /-- `t.errorfAt(pos, …)`: an error at a position the caller vouches for -/
